@@ -87,6 +87,12 @@ func (s *streamWS) RecvMsg(m interface{}) error {
 	s.recvN += 1
 	args := m.(proto.Message)
 
+	if !s.method.hasBody && s.recvN > 1 {
+		// A rule without a body maps the request to one message, built from
+		// the path and query: the request stream ends after it.
+		return io.EOF
+	}
+
 	if s.method.hasBody {
 		cur := args.ProtoReflect()
 		for _, fd := range s.method.body {
